@@ -271,7 +271,7 @@ pub fn c14(tier: Tier, seed: u64) -> Verdict {
     });
     // (2) random values, uniform per digit count, through proptest (shrinks towards small magnitudes)
     if merged.violation.is_none() {
-        let per_shard = tier.pick(300_000, 6_000_000);
+        let per_shard = tier.pick(2_000_000, 12_000_000);
         let strat = || (0usize..24, any::<u8>(), any::<u128>(), any::<bool>()).boxed();
         let m = run_sharded("C14", seed, 0, per_shard, strat, |&(t, dsel, raw, neg), _cur| {
             let mut st = CaseStats::default();
@@ -749,9 +749,9 @@ fn c16_violation(case: Value, detail: String) -> Violation {
 pub fn c16(tier: Tier, seed: u64) -> Verdict {
     let t0 = Instant::now();
     let byte_plan: Vec<(&[u8], usize)> = match tier {
-        Tier::Quick => vec![(&BYTE_ALPHA, 0), (&BYTE_ALPHA, 1), (&BYTE_ALPHA, 2), (&BYTE_ALPHA, 3), (&BYTE_ALPHA, 4)],
+        Tier::Quick => vec![(&BYTE_ALPHA, 0), (&BYTE_ALPHA, 1), (&BYTE_ALPHA, 2), (&BYTE_ALPHA, 3), (&BYTE_ALPHA, 4), (&BYTE_ALPHA, 5)],
         Tier::Thorough => {
-            vec![(&BYTE_ALPHA, 0), (&BYTE_ALPHA, 1), (&BYTE_ALPHA, 2), (&BYTE_ALPHA, 3), (&BYTE_ALPHA, 4), (&BYTE_ALPHA, 5), (&BYTE_ALPHA_MIN, 6)]
+            vec![(&BYTE_ALPHA, 0), (&BYTE_ALPHA, 1), (&BYTE_ALPHA, 2), (&BYTE_ALPHA, 3), (&BYTE_ALPHA, 4), (&BYTE_ALPHA, 5), (&BYTE_ALPHA_MIN, 6), (&BYTE_ALPHA_MIN, 7)]
         }
     };
     let u16_max = tier.pick(5, 6);
@@ -780,7 +780,8 @@ pub fn c16(tier: Tier, seed: u64) -> Verdict {
                         break 'a;
                     }
                 }
-                if bytes_nontrivial(&buf) {
+                if m.distinct.len() < 1_500_000 && bytes_nontrivial(&buf) {
+                    // counted conservatively: at most 1.5 M per shard are remembered
                     m.distinct.insert(digest(&buf));
                 }
                 i += SHARDS as u64;
@@ -808,7 +809,7 @@ pub fn c16(tier: Tier, seed: u64) -> Verdict {
                             break 'b;
                         }
                     }
-                    if String::from_utf16(&ub).is_err() && ub.iter().any(|x| *x < 0xd800 || *x > 0xdfff) {
+                    if m.distinct.len() < 2_000_000 && String::from_utf16(&ub).is_err() && ub.iter().any(|x| *x < 0xd800 || *x > 0xdfff) {
                         m.distinct.insert(digest(&ub));
                     }
                     i += SHARDS as u64;
@@ -830,7 +831,7 @@ pub fn c16(tier: Tier, seed: u64) -> Verdict {
     merged.exhaustive = false;
     // random longer inputs through proptest: sequences of 5-7 symbols and long spliced inputs
     if merged.violation.is_none() {
-        let n = tier.pick(20_000, 600_000);
+        let n = tier.pick(250_000, 3_000_000);
         let valid_chunks: Vec<Vec<u8>> =
             ["a", "é", "€", "𝄞", "\u{7ff}", "\u{800}", "\u{ffff}", "\u{10000}", "\u{10ffff}", "abcdefgh", "0123456789abcdef"].iter().map(|s| s.as_bytes().to_vec()).collect();
         let bad_chunks: Vec<Vec<u8>> = vec![
@@ -874,7 +875,7 @@ pub fn c16(tier: Tier, seed: u64) -> Verdict {
         merged.merge(m);
     }
     if merged.violation.is_none() {
-        let n = tier.pick(15_000, 400_000);
+        let n = tier.pick(150_000, 2_000_000);
         let strat = || prop_oneof![3 => vec(select(U16_ALPHA.to_vec()), 0..=30), 1 => vec(any::<u16>(), 0..=30)].boxed();
         let m = run_sharded("C16", seed, 1, n, strat, |u: &Vec<u16>, _| {
             let mut st = CaseStats::default();
@@ -901,7 +902,7 @@ pub fn c16(tier: Tier, seed: u64) -> Verdict {
         tier,
         seed,
         "exploration",
-        "bytes: every sequence of length <= 4 (thorough <= 5) over a 21-symbol alphabet with a representative of every UTF-8 byte class, thorough also length 6 over the 15-symbol minimal alphabet; one in 7 also embedded behind 14 ASCII bytes so the text crosses the inline limit; proptest: 5-7 symbols, inputs spliced from valid chunks and invalid fragments (replacement characters outgrow the input length), raw random bytes; u16: every sequence of length <= 5 (thorough 6) over 12 symbols {BMP, surrogate boundaries}, one in 5 embedded behind 16 ASCII units; proptest random units; oracle: String::from_utf8/from_utf8_lossy/from_utf16/from_utf16_lossy; non-trivial = invalid input that also contains valid text, or lossy output longer than the input; distinct inputs",
+        "bytes: every sequence of length <= 5 over a 21-symbol alphabet with a representative of every UTF-8 byte class, thorough also lengths 6 and 7 over the 15-symbol minimal alphabet; one in 7 also embedded behind 14 ASCII bytes so the text crosses the inline limit; proptest: 5-7 symbols, inputs spliced from valid chunks and invalid fragments (replacement characters outgrow the input length), raw random bytes; u16: every sequence of length <= 5 (thorough 6) over 12 symbols {BMP, surrogate boundaries}, one in 5 embedded behind 16 ASCII units; proptest random units; oracle: String::from_utf8/from_utf8_lossy/from_utf16/from_utf16_lossy; non-trivial = invalid input that also contains valid text, or lossy output longer than the input; distinct inputs",
         ASSUME_VAL,
         &merged,
         t0.elapsed().as_secs_f64(),
